@@ -1,6 +1,7 @@
 import Dbg.Lemmas.KmerExtend
 import Dbg.Lemmas.KmerRc
 import Dbg.Lemmas.KmerOrder
+import Dbg.Lemmas.KmerSlice
 /-! # C10 — Packed k-mers behave as length-K strings
 
 `Kmer.toSeq c s` is the string read from storage `s` by the model of `get`; every theorem says that an
@@ -90,6 +91,15 @@ theorem C10_fromBytes (c : Cfg) (hc : c.WF) (bytes : List Nat) (hl : c.K ≤ byt
 theorem C10_rc (c : Cfg) (hc : c.WF) (hw : c.w ∈ [8, 16, 32, 64, 128]) (s : St c) :
     toSeq c (rc c s) = KSpec.rc (toSeq c s) ∧ Inv c (rc c s) :=
   ⟨toSeq_rc hc hw s, inv_rc hc hw s⟩
+
+/-- C10 (packed run): `set_slice_mut(pos, n, value)` replaces exactly bases `pos..pos+n` by the run packed into the
+    top `2n` bits of `value` (base j = bits 63-2j, 62-2j); every other bit of `value` is irrelevant; for all
+    `1 ≤ n ≤ 32`, `pos + n ≤ K` -/
+theorem C10_setSlice (c : Cfg) (hc : c.WF) (s : St c) (pos n : Nat) (value : BitVec 64)
+    (hn1 : 1 ≤ n) (hn32 : n ≤ 32) (hpn : pos + n ≤ c.K) :
+    toSeq c (setSliceMut c s pos n value) = KSpec.setSlice (toSeq c s) pos n value ∧
+    (Inv c s → Inv c (setSliceMut c s pos n value)) :=
+  ⟨toSeq_setSliceMut hc s pos n value hn1 hn32 hpn, inv_setSliceMut hc s pos n value hn1 hn32 hpn⟩
 
 /-- C10 (rank): under the invariant `to_u64` is the base-4 value of the string (K ≤ 32 so that it fits) -/
 theorem C10_toU64 (c : Cfg) (hc : c.WF) (hK : c.K ≤ 32) (s : St c) (hs : Inv c s) :
